@@ -569,6 +569,30 @@ func execC12(c C12Case) (res evid.Result) {
 		}
 	}
 	counts["flips"] = len(flips)
+	// "one whose digest does not match is rejected on decode": besides a digest with flipped bits, a last
+	// component that carries the right 32 bytes and more, or all but the last of them (the enclosing
+	// lengths adjusted, everything else untouched). A digest of another length matches nothing.
+	if hasParams && p.Kind == "I" {
+		kids := rp.nameNode.Children
+		last := kids[len(kids)-1]
+		dv := append([]byte(nil), b.joined[last.ValOff:last.End]...)
+		variants := [][]byte{append(append([]byte(nil), dv...), 0x00), append(append([]byte(nil), dv...), 0x5a, 0x00, 0x00, 0x01), dv[:len(dv)-1], {}}
+		for vi, nv := range variants {
+			nameVal := append(append(append([]byte(nil), b.joined[rp.nameNode.ValOff:last.Off]...), tw.EncodeTLV(tw.TParamsDigest, nv)...), b.joined[last.End:rp.nameNode.End]...)
+			rootVal := append(append(append([]byte(nil), b.joined[rp.root.ValOff:rp.nameNode.Off]...), tw.EncodeTLV(uint64(rp.nameNode.Type), nameVal)...), b.joined[rp.nameNode.End:rp.root.End]...)
+			crafted := tw.EncodeTLV(uint64(rp.root.Type), rootVal)
+			for _, sp := range []string{"ReadInterest", "ReadPacket"} {
+				d := decodeOpt(p.Kind, sp, enc.NewBufferReader(crafted), false)
+				if d.panicked {
+					return fail("an Interest whose digest component has %d bytes instead of 32 makes %s panic: packet %s", len(nv), sp, shortB(crafted))
+				}
+				if d.err == nil {
+					return fail("an Interest whose last name component is a parameters digest of %d bytes (variant %d: the right 32 bytes %s) is accepted by %s: packet %s", len(nv), vi, map[bool]string{true: "and more", false: "cut short"}[len(nv) > 32], sp, shortB(crafted))
+				}
+			}
+			counts["digest-components-of-another-length-rejected"]++
+		}
+	}
 	res.Counts = counts
 	if len(flips) == len(b.joined)*8 {
 		res.Classes = append(res.Classes, "all-bits-flipped")
@@ -605,7 +629,7 @@ func execC12(c C12Case) (res evid.Result) {
 	return res
 }
 
-const ruleC12 = "packets as in C03 built with every shipped signer (SHA-256 digest, HMAC, ECDSA P-256, RSA-2048; Data and Interest flavours, with/without key locator and validity period) wrapped in a recorder, plus unsigned Interests with parameters; untampered: signer input == signed portion by the packet format (own walker) == SigCovered of the encoder == SigCovered of every decoder (contiguous and segmented), validator accepts, parameters digest correct; tampered: every bit (packets up to budget/8 bytes) or a stratified sample (all header bytes, first/last byte of every element, digest and signature value, random interior) flipped one at a time. Non-trivial: >=1 flip where decoding succeeded and the validator or the digest check did the rejecting, or an untampered signed packet with >=1 optional field and a multi-buffer wire"
+const ruleC12 = "packets as in C03 built with every shipped signer (SHA-256 digest, HMAC, ECDSA P-256, RSA-2048; Data and Interest flavours, with/without key locator and validity period) wrapped in a recorder, plus unsigned Interests with parameters; untampered: signer input == signed portion by the packet format (own walker) == SigCovered of the encoder == SigCovered of every decoder (contiguous and segmented), validator accepts, parameters digest correct; tampered: every bit (packets up to budget/8 bytes) or a stratified sample (all header bytes, first/last byte of every element, digest and signature value, random interior) flipped one at a time; for Interests with parameters also a digest component that holds the right 32 bytes and more, or fewer. Non-trivial: >=1 flip where decoding succeeded and the validator or the digest check did the rejecting, or an untampered signed packet with >=1 optional field and a multi-buffer wire"
 
 func TestC12Signed(t *testing.T) {
 	keys()
